@@ -22,6 +22,7 @@ import (
 
 type Cond struct {
 	L, Op, R string
+	Blk      *ssa.BasicBlock // the block whose branch established the condition (nil for derived facts)
 	Loop     bool
 	Need     []string // derived facts: conditions of the callee's guard that must hold for the fact to hold
 }
@@ -45,6 +46,7 @@ type Sink struct {
 	Expr    string // stable fingerprint for known findings
 	Terms   []string // checked-arith: the leaf terms (affine atoms) of all operands
 	BoundedCall bool // the operand is a call of a module function whose every return is bounded by BaseLen
+	ShrinkBody  map[*ssa.BasicBlock]bool // the base is re-sliced around a loop (s = s[1:]): that loop's blocks; only conditions established inside it speak about the current length
 }
 
 // domConds lists every branch condition that holds on entry to block b (dominating conditional
@@ -97,6 +99,7 @@ func (ge *GuardEngine) domConds(fi *fnInfo, b *ssa.BasicBlock, env *Env) []Cond 
 		ge.pv.loadCtx = saved
 		for i := range conds {
 			conds[i].Loop = fi.isLoopTest(d)
+			conds[i].Blk = d
 		}
 		out = append(out, conds...)
 	}
@@ -194,9 +197,17 @@ func (ge *GuardEngine) Sinks(fn *ssa.Function, env *Env, conds []Cond, chain []s
 			ge.pv.loadCtx = []ssa.Instruction{in}
 			switch x := in.(type) {
 			case *ssa.IndexAddr:
+				n0 := len(out)
 				appendIndexSink(ge, add, x, b, x.X, x.Index, env, staticLen(x.X, 0))
+				if len(out) > n0 {
+					out[len(out)-1].ShrinkBody = shrinkLoopOf(ge, fn, x.X)
+				}
 			case *ssa.Index:
+				n0 := len(out)
 				appendIndexSink(ge, add, x, b, x.X, x.Index, env, staticLen(x.X, 0))
+				if len(out) > n0 {
+					out[len(out)-1].ShrinkBody = shrinkLoopOf(ge, fn, x.X)
+				}
 			case *ssa.Slice:
 				base := ge.pv.Atom(x.X, env)
 				bl := staticLen(x.X, 0)
@@ -311,6 +322,45 @@ func isConstVal(v ssa.Value) bool {
 	return ok
 }
 
+// shrinkLoopOf: base is (a reslice of) a loop-header phi one of whose back-edge values reslices the phi itself:
+// the blocks of that loop.
+func shrinkLoopOf(ge *GuardEngine, fn *ssa.Function, base ssa.Value) map[*ssa.BasicBlock]bool {
+	for depth := 0; depth < 4; depth++ {
+		switch x := base.(type) {
+		case *ssa.Slice:
+			base = x.X
+			continue
+		case *ssa.Phi:
+			hdr := x.Block()
+			for i, e := range x.Edges {
+				if !hdr.Dominates(hdr.Preds[i]) {
+					continue // not a back edge
+				}
+				v := e
+				for d := 0; d < 4; d++ {
+					if sl, ok := v.(*ssa.Slice); ok {
+						if sl.X == ssa.Value(x) {
+							return ge.info(fn).loopBody[hdr]
+						}
+						v = sl.X
+						continue
+					}
+					if ph, ok := v.(*ssa.Phi); ok && ph != x {
+						for _, e2 := range ph.Edges {
+							if sl, ok := e2.(*ssa.Slice); ok && sl.X == ssa.Value(x) {
+								return ge.info(fn).loopBody[hdr]
+							}
+						}
+					}
+					break
+				}
+			}
+		}
+		break
+	}
+	return nil
+}
+
 func appendIndexSink(ge *GuardEngine, add func(ssa.Instruction, *ssa.BasicBlock, string, string, string, int64, string), in ssa.Instruction, b *ssa.BasicBlock, base, idx ssa.Value, env *Env, bl int64) {
 	if k, ok := idx.(*ssa.Const); ok && k.Value != nil && bl >= 0 {
 		if v, ok := constant.Int64Val(k.Value); ok && v >= 0 && v < bl {
@@ -386,6 +436,17 @@ func (s Sink) Discharged() (bool, string) {
 		}
 	}
 	s.Conds = usable
+	if s.ShrinkBody != nil {
+		// the base shrinks around a loop: what was known about its length before the loop says nothing now
+		var cur []Cond
+		for _, c := range s.Conds {
+			if c.Blk != nil && !s.ShrinkBody[c.Blk] && (strings.Contains(c.L, "len("+s.Base) || strings.Contains(c.R, "len("+s.Base)) {
+				continue
+			}
+			cur = append(cur, c)
+		}
+		s.Conds = cur
+	}
 	op := s.Operand
 	lenBase := "len(" + s.Base + ")"
 	switch s.Kind {
